@@ -162,11 +162,12 @@ def gen_putfile(out):
             continue
         # if tmpfile.islink(): tmpfile.remove()      (never write through a pre-existing symlink)
         if isinstance(st, ast.If) and not st.orelse and len(st.body) == 1:
-            m = re.fullmatch(r"(\w+)\.islink\(\)", U(st.test))
+            m = re.fullmatch(r"(\w+)\.(islink|exists)\(\)", U(st.test))
             if m and m.group(1) in roles.obj and U(st.body[0]) in ("%s.remove()" % m.group(1),
                                                                    "os.unlink(%s.path)" % m.group(1),
                                                                    "os.remove(%s.path)" % m.group(1)):
-                main.append("SUnlinkIfLink %s" % roles.obj[m.group(1)])
+                # islink() is lstat-based; exists() follows symlinks (False for a dangling link)
+                main.append("%s %s" % ("SUnlinkIfLink" if m.group(2) == "islink" else "SUnlinkIfExists", roles.obj[m.group(1)]))
                 continue
         if isinstance(st, ast.FunctionDef):
             cbs[st.name] = steps_of_body(st.body, roles, where + "." + st.name)
